@@ -86,6 +86,9 @@ class Program:
             if k.excl is not None:
                 if k.excl[0] == 'EMBED_UNEXPORTED':
                     return '\t%s' % k.name  # embedded struct whose type name is unexported
+                if k.excl[0] == 'EMBED_EXPORTED':
+                    # embedded struct of an exported type, excluded by its tag
+                    return '\t%s %s' % (k.name, '`json:"audit,omitempty" parquet:"-"`' if k.excl[1] == 'JSONDASH' else '`parquet:"-"`')
                 tag = (' `parquet:"%s"`' % k.excl[1]) if k.excl[1] else ''
                 if k.excl[1] == 'JSONDASH':
                     tag = ' `json:"secret,omitempty" parquet:"-"`'  # another key before the parquet key
@@ -105,7 +108,7 @@ class Program:
                     walk(k.gotype, k.kids)
         walk(self.root, self.kids)
         for k in self.all_members():
-            if k.excl and k.excl[0] == 'EMBED_UNEXPORTED':
+            if k.excl and k.excl[0] in ('EMBED_UNEXPORTED', 'EMBED_EXPORTED'):
                 types.append('type %s struct {\n\tRev int32\n\tWho string\n}\n' % k.name)
         if any(k.excl and 'Unsupported' in k.excl[0] for k in self.all_members()):
             types.append('type Unsupported struct {\n\tZ map[string]chan int\n}\n')
@@ -279,7 +282,7 @@ class Program:
                         L.append('\tif a.%s != nil { return false }' % n)
                     elif t.startswith('struct{'):
                         L.append('\tok = vAnd(ok, a.%s.Q == 0)' % n)
-                    elif t == 'EMBED_UNEXPORTED':
+                    elif t in ('EMBED_UNEXPORTED', 'EMBED_EXPORTED'):
                         L.append('\tok = vAnd(ok, vAnd(a.%s.Rev == 0, a.%s.Who == ""))' % (n, n))
                     continue
                 if k.kids is None:
@@ -316,7 +319,7 @@ class Program:
                         L.append('\ta.%s = map[string]int{"k": 1}' % n)
                     elif t.startswith('struct{'):
                         L.append('\ta.%s.Q = i32()' % n)
-                    elif t == 'EMBED_UNEXPORTED':
+                    elif t in ('EMBED_UNEXPORTED', 'EMBED_EXPORTED'):
                         L.append('\ta.%s.Rev = i32(); a.%s.Who = string([]byte{u8()})' % (n, n))
                     elif t == 'interface{}':
                         L.append('\ta.%s = 7' % n)
@@ -597,7 +600,7 @@ def shape_canon(shape):
 # -------------------------------------------------------------------- C14 decorations
 import copy
 
-EXCL_TYPES = ['int32', '*string', '[]byte', 'map[string]int', 'chan int', 'func(X int32) error', 'struct{ Q int32 }', 'struct{ Q int32 `parquet:"q"` }', 'interface{}', '*Unsupported', 'EMBED_UNEXPORTED']
+EXCL_TYPES = ['int32', '*string', '[]byte', 'map[string]int', 'chan int', 'func(X int32) error', 'struct{ Q int32 }', 'struct{ Q int32 `parquet:"q"` }', 'interface{}', '*Unsupported', 'EMBED_UNEXPORTED', 'EMBED_EXPORTED']
 
 
 def _clone(kids):
@@ -658,6 +661,8 @@ def decorate_excluded(base, name, where, idx, mode, gotype):
         tgt = [k for k in tgt if k.name == n][0].kids
     if gotype == 'EMBED_UNEXPORTED':
         ex = F('audit%d%s' % (idx, ''.join(where).lower()), excl=(gotype, None))
+    elif gotype == 'EMBED_EXPORTED':
+        ex = F('Audit%d%s' % (idx, ''.join(where).lower()), excl=(gotype, 'JSONDASH' if mode == 'jsondash' else '-'))
     elif mode == 'unexported':
         ex = F('hidden' + str(idx), excl=(gotype, None))
     elif mode == 'jsondash':
